@@ -125,6 +125,12 @@ func AnswerRounds(s Source, steps []Step, callers []CallSpec, errEvery int) ([]S
 					feats[[]string{"gzip:default", "gzip:flushed-in-between", "gzip:stored", "gzip:huffman-only", "gzip:best"}[it.GzipStyle]]++
 				}
 				feats[kinds[tg]+":"+form]++
+				if bigResult(tg) && (kinds[tg] == "object" || kinds[tg] == "veclong") && it.ErrCode == 0 {
+					feats["big-result"]++
+					if it.Gzip {
+						feats["big-result:gzip"]++
+					}
+				}
 				st.Items = append(st.Items, it)
 			}
 			if len(answered) > 0 && s.Int("repeat", 4) == 0 {
